@@ -107,6 +107,49 @@ void dump_buffer(_Bool force)
       __CPROVER_loop_invariant(__i1 <= __r1->n && g_nlog == __i1 && i == g_buf + __i1 && vf_exc == 0 &&               \
                                ALLQ(PRINTED_1)) __CPROVER_decreases(__r1->n - __i1)
 
+/* ---------------- Container::~Container ---------------------------------------------------------------------- */
+/* Property: a trace never uses a container after destroying it. Mechanism: on EVERY destruction the dump horizon
+ * becomes the current clock and the whole buffer is dumped (forced) BEFORE the destruction is signalled
+ * (on_destruction writes the DestroyContainer line), whatever the previous horizon was.
+ * The signal is an assumed callee that records what it sees when it fires (ghost).                                  */
+#define NCH 2
+struct Container g_cont;
+struct vf_pair_vf_str__ContainerP g_child_ent[NCH + 1];
+struct vf_pair_vf_str__ContainerP g_all_ent[NCH + 2];
+double g_clock;             /* ghost: what simgrid_get_clock() answers */
+int g_sig_calls;            /* ghost: number of on_destruction signals */
+struct Container* g_sig_arg;
+size_t g_sig_buffered;      /* ghost: events still buffered when the signal fired */
+size_t g_sig_printed;       /* ghost: events printed when the signal fired */
+double g_sig_horizon;       /* ghost: last_timestamp_to_dump when the signal fired */
+
+double simgrid_get_clock(void) __CPROVER_requires(1) __CPROVER_assigns()
+    __CPROVER_ensures(__CPROVER_return_value == g_clock && vf_exc == 0);
+
+void signal_Container____operator_call(struct signal_Container__* self, struct Container* c)
+    __CPROVER_requires(self == &on_destruction)
+    __CPROVER_assigns(g_sig_calls, g_sig_arg, g_sig_buffered, g_sig_printed, g_sig_horizon)
+    __CPROVER_ensures(g_sig_calls == __CPROVER_old(g_sig_calls) + 1 && g_sig_arg == c && g_sig_buffered == buffer.n &&
+                      g_sig_printed == g_nlog && g_sig_horizon == last_timestamp_to_dump && vf_exc == 0);
+
+void Container__dtor_Container(struct Container* self)
+    __CPROVER_requires(self == &g_cont && g_cont.children_.e == g_child_ent && g_cont.children_.n <= NCH &&
+                       g_cont.children_.cap == NCH + 1 && all_containers_.e == g_all_ent &&
+                       all_containers_.n <= NCH + 1 && all_containers_.cap == NCH + 2 && g_sig_calls == 0 &&
+                       !__CPROVER_isnand(g_clock))
+    __CPROVER_requires(WF_BUF(CAP + 1) && SORTED && g_nlog == 0 && vf_exc == 0 && !__CPROVER_isnand(H))
+    __CPROVER_assigns(last_timestamp_to_dump, buffer.n, __CPROVER_object_whole(g_buf), g_nlog,
+                      __CPROVER_object_whole(g_log), all_containers_.n, __CPROVER_object_whole(g_all_ent), g_sig_calls,
+                      g_sig_arg, g_sig_buffered, g_sig_printed, g_sig_horizon)
+    __CPROVER_ensures(vf_exc == 0 && g_sig_calls == 1 && g_sig_arg == &g_cont) /*@ destruction_signalled_exactly_once */
+    __CPROVER_ensures(g_sig_horizon == g_clock && H == g_clock) /*@ horizon_becomes_the_current_clock_before_the_signal */
+    __CPROVER_ensures(!g_enabled || (g_sig_buffered == 0 && g_sig_printed == g_oldn))
+    /*@ whole_buffer_dumped_before_destruction_is_signalled */
+    __CPROVER_ensures(!g_enabled || !(gk < g_oldn) || g_log[gk] == g_old[gk]) /*@ destruction_dump_in_buffer_order */;
+
+#define VF_LOOP_Container__dtor_Container_0                                                                            \
+  __CPROVER_assigns(__i0) __CPROVER_loop_invariant(__i0 <= __r0->n) __CPROVER_decreases(__r0->n - __i0)
+
 #include "gen.c"
 
 /* ---------------- harnesses ---------------------------------------------------------------------------------- */
@@ -152,6 +195,22 @@ void harness(void)
 {
   setup();
   dump_buffer(nondet_bool());
+  VF_CANARY_POINT;
+}
+#endif
+#ifdef H_container_dtor
+void harness(void)
+{
+  setup();
+  g_cont.children_.e   = g_child_ent;
+  g_cont.children_.n   = nondet_size();
+  g_cont.children_.cap = NCH + 1;
+  all_containers_.e    = g_all_ent;
+  all_containers_.n    = nondet_size();
+  all_containers_.cap  = NCH + 2;
+  g_clock              = nondet_double();
+  g_sig_calls          = 0;
+  Container__dtor_Container(&g_cont);
   VF_CANARY_POINT;
 }
 #endif
